@@ -31,6 +31,7 @@ def plan(tier, seed):
     n = 160 if tier == 'quick' else 8000
     specs = [{'part': 'models', 'n': n, 'shard': sh, 'timeout': 3000} for sh in range(16)]
     specs.append({'part': 'shipped', 'shard': 0})
+    specs.append({'part': 'crossprocess', 'shard': 0, 'n': 150 if tier == 'quick' else 3000})
     return specs
 
 
@@ -339,7 +340,8 @@ def run_models(spec, acc, api):
             if rnd.random() < 0.3:
                 for st in stmts:
                     if 'function' in st and st['function'].get('args') and rnd.random() < 0.5:
-                        st['function']['args'] = st['function']['args'] + [st['function']['args'][0]]
+                        a0 = st['function']['args']
+                        st['function']['args'] = a0 + [a0[0]] + ([a0[-1], 'zz', 'zz'] if rnd.random() < 0.5 else [])
             model = {'statements': stmts}
             init = {'n': 0, 'm': rnd.choice([0, 2]), 'c': rnd.choice([0, 1])}
             name = f'jumplevel{i}'
@@ -358,8 +360,52 @@ def run_shipped(acc, api):
         acc.cover('shipped_scripts', os.path.basename(f))
 
 
+def run_crossprocess(spec, acc, api):
+    """The same model always gives the same warnings - also in another process with another string-hash seed."""
+    import subprocess
+    import sys
+    bare_script, model_mod, lib, rt_err = api
+    rnd = random.Random(spec['seed'] * 7919 + 127)
+    models = []
+    for _ in range(spec['n']):
+        stmts = rand_stmts(rnd, rnd.randint(6, 30), ['n', 'm', 'c'], False)
+        # several unused and several dangling labels per scope
+        stmts += [{'label': l} for l in rnd.sample(['U1', 'U2', 'U3', 'Zed', 'Alpha', 'mid'], 4)] + [{'jump': {'label': l}} for l in rnd.sample(['X1', 'X2', 'Beta', 'Yps'], 3)]
+        models.append({'statements': stmts})
+    here = [model_mod.lint_script(m) for m in models]
+    os.makedirs(core.SCRATCH, exist_ok=True)
+    path = os.path.join(core.SCRATCH, f'c18-models-{os.getpid()}.json')
+    with open(path, 'w', encoding='utf-8') as fh:
+        json.dump(models, fh)
+    code = ("import json, sys; from bare_script.model import lint_script; "
+            "print(json.dumps([lint_script(m) for m in json.load(open(sys.argv[1]))]))")
+    try:
+        for hs in ('1', '2', '3', '12345'):
+            env = dict(os.environ, PYTHONHASHSEED=hs)
+            out = subprocess.run([sys.executable, '-B', '-c', code, path], env=env, capture_output=True, text=True, timeout=600)
+            if out.returncode != 0:
+                acc.note_inconclusive('child lint process failed: ' + out.stderr[-300:])
+                return
+            there = json.loads(out.stdout)
+            for i, (a, b) in enumerate(zip(here, there)):
+                acc.case(('xproc', hs, i), True)
+                if a != b:
+                    acc.violation('lint-differs-between-processes', f'PYTHONHASHSEED=0 gives {a!r:.300}; PYTHONHASHSEED={hs} gives {b!r:.300}', {'model': models[i], 'init': refval.enc({}), 'name': 'crossprocess'})
+                    return
+            acc.count('cross_process_lint_comparisons', len(here))
+    finally:
+        try:
+            os.unlink(path)
+        except OSError:
+            pass
+    acc.sample({'cross_process': 'same models linted under PYTHONHASHSEED 0, 1, 2, 3, 12345', 'models': len(models)}, limit=1)
+
+
 def run_shard(spec, acc):
     api = _api()
+    if spec['part'] == 'crossprocess':
+        run_crossprocess(spec, acc, api)
+        return
     if spec['part'] == 'models':
         run_models(spec, acc, api)
     else:
